@@ -18,6 +18,7 @@ class RefCloud:
         self.accounts = dict(accounts)        # account -> password
         self.login_ids = {}                   # account -> loginId
         self.sessions = {}                    # sessionId -> account
+        self.expired_sessions = set()         # issued once, no longer valid
         self.tokens = {}                      # udpid(str) -> list of entries [{"udpId","token","key"}] to return
         self.default_tokens = None            # callable(udpid) -> list, when udpid not in tokens
         self.faults = []                      # consumed one per request: None | "timeout" | ("http", code) | ("api", code)
@@ -79,6 +80,8 @@ class RefCloud:
             return self._err(fault[1], "injected")
         if problems:
             return self._err(3004, "; ".join(problems)[:200])
+        if rec.get("expired_session"):
+            return self._err(3106, "invalid session")
         return self.answer(path, fields)
 
     def verify(self, path, fields, rec):
@@ -121,7 +124,9 @@ class RefCloud:
             elif fields.get("password") != self.derive_password(self._login_id(acct), self.accounts[acct]):
                 p.append("password derivation does not verify")
         elif path == "/v1/iot/secure/getToken":
-            if fields.get("sessionId") not in self.sessions:
+            if fields.get("sessionId") in self.expired_sessions:
+                rec["expired_session"] = True       # issued earlier, dropped by the server since: answered 3106
+            elif fields.get("sessionId") not in self.sessions:
                 p.append("sessionId is not the issued one")
             if not fields.get("udpid"):
                 p.append("udpid missing")
@@ -149,6 +154,10 @@ class RefCloud:
         else:
             lst = []
         return self._ok({"tokenlist": lst})
+
+    def expire_sessions(self):
+        self.expired_sessions |= set(self.sessions)
+        self.sessions.clear()
 
     def client_factory(self):
         handler = self.handler
